@@ -428,6 +428,7 @@ func (s *scen) emit() {
 	add := func(t string) { toks = append(toks, t) }
 	lastAssign, lastCommitted, lastFetchTopics := "-", "-", ""
 	pendAtt := map[string][2]string{}
+	genIDs := map[string]string{} // generation pointer id -> "<generation id>:<member id>"
 	for _, e := range evs {
 		a := e.Args
 		switch e.Kind {
@@ -436,7 +437,7 @@ func (s *scen) emit() {
 		case "H.CommitRet":
 			add("ret:" + a[0] + ":" + a[1])
 		case "CL.Begin":
-			add("begin:" + b01(a[2]))
+			add("begin:" + b01(a[2]) + ":" + genIDs[a[1]])
 		case "CL.Deq":
 			add("deq:" + a[2] + ":" + b01(strconv.FormatBool(a[3] == "drain")))
 		case "M.Call":
@@ -448,10 +449,11 @@ func (s *scen) emit() {
 			case "offsetCommit":
 				// the request's offsets were journalled with the call; find them again (same conn, latest call)
 				offs, ack := s.lastCommitOffsets(evs, e.Seq), b01(strconv.FormatBool(a[2] == "-"))
+				ids := a[4] + ":" + a[3] // generation id and member id of the request
 				if s.wire { // the library's own conclusion follows as M.Wire
-					pendAtt[a[0]] = [2]string{offs, ack}
+					pendAtt[a[0]] = [2]string{offs, ack + ":" + ids}
 				} else {
-					add("att:" + offs + ":" + ack + ":" + ack)
+					add("att:" + offs + ":" + ack + ":" + ack + ":" + ids)
 				}
 			case "syncGroup":
 				if a[2] == "-" {
@@ -486,6 +488,7 @@ func (s *scen) emit() {
 		case "CL.End":
 			add("endLoop")
 		case "G.New":
+			genIDs[a[1]] = a[2] + ":" + gm.Mem(a[3])
 			add("gnew:" + a[4])
 			// in-situ case for the assignment model
 			fmt.Fprintf(out, "assign %d %s %s %s\t%s\n", s.r.Config().StartOffset, lastFetchTopics, assignToSubs(lastAssign), lastCommitted, assignmentsToRes(a[4], strings.Split(lastFetchTopics, ",")))
